@@ -49,7 +49,7 @@ def node_prog(draw, depth, names):
 def construct_spec(draw):
     names = [0]
     prog = draw(node_prog(0, names))
-    spec = {"prog": prog, "integer": draw(st.booleans()), "dup": draw(st.integers(0, 5)) == 0}
+    spec = {"prog": prog, "integer": draw(st.booleans()), "dup": draw(st.integers(0, 5)) == 0, "flips": draw(st.lists(st.booleans(), min_size=1, max_size=6))}
     return spec
 
 
@@ -160,6 +160,10 @@ def case_construct(ctx, spec):
         root, expected = build_prog(bt, "root", prog)
     except Exception as e:
         raise Violation("construction raised %s: %s" % (type(e).__name__, str(e)[:200]), signature="c19:construct-raises")
+    # some nodes may have been switched on their own before the setting is pushed from the top
+    for k_, m_ in enumerate(root.members):
+        if m_ is not root and spec.get("flips") and spec["flips"][k_ % len(spec["flips"])]:
+            m_.use_integer_positions(not spec["integer"])
     root.use_integer_positions(spec["integer"])
     check_structure(bt, root, expected, root, ["root"], spec["integer"])
     fee = interp.Fee({"kind": "fixed", "f": 1.0})
